@@ -70,9 +70,12 @@ class C18(Check):
                  'independent recount using re; incremental coverage walked '
                  'in the returned order')
     rule = ('one case per (set of distinct strings, option point); inside: '
-            'every frequency vector over {1,2,3} (quads {1,2}) x list/dict '
-            'input x dedup False/True x 4 figures; non-trivial = at least two '
-            'expressions returned or some frequency > 1')
+            'every frequency vector over {1,2,3} (quick triples, quads, '
+            'option/prune layers {1,2}) x list/dict input x dedup False/True '
+            'x 4 figures; overlap layer: one case per (ordered expression '
+            'list of <= 3 from 10, set of <= 3 strings from 8); non-trivial = '
+            'at least two expressions returned or some frequency > 1 '
+            '(overlap layer: some string matched by two expressions)')
     assumptions = [
         'strings from the 30-string sub-alphabet A18 (pairs also over the '
         '104-string pair alphabet in thorough); <= 3 (thorough 4) distinct '
@@ -90,6 +93,19 @@ class C18(Check):
         'result: only n_examples is checked',
         'under a sampling Size the stored examples are the grown sample: all '
         'figures unspecified there (thorough only, counted and tagged)',
+        'rexpy\'s own expressions were pairwise disjoint on every explored '
+        'input, so the layer "overlap" applies the same recount to the '
+        'documented module-level functions rex_coverage / '
+        'rex_incremental_coverage / rex_full_incremental_coverage with '
+        'hand-made overlapping expression lists (10 expressions, 8 strings); '
+        'examples matched by no listed expression are left out of the '
+        'expected total there',
+        'when some kept example is matched by no returned expression (a C03 '
+        'defect) every figure is polluted (rexpy re-appends the failures); '
+        'such cases are reported under one signature per C03 root cause '
+        '(uncovered-example:neg-bracket / nonascii-digit / other)',
+        'every case runs in a fresh instance of the rexpy module; a case '
+        'using more than 20 s of CPU is reported as uncaught:CaseTimeout',
     ]
 
     def hashseeds(self, tier, verif_seed):
